@@ -66,7 +66,8 @@ def random_call(rng, conf, state, kinds, opts):
     else:
       kdel = min(room, rng.choice([n, n, n, n + 1, max(0, n - 1), 0]))
       env = {'raise': False, 'ps': [rng.choice(params) for _ in range(kdel)],
-             'md': cellmap(0.3) if opts.get('AlgoMeta') else {c: 'None' for c in cells}}
+             'md': ({c: ('inc' if v != 'None' and rng.random() < 0.3 else v) for c, v in cellmap(0.3).items()}
+                    if opts.get('AlgoMeta') else {c: 'None' for c in cells})}
     return {'rpc': k, 's': s, 'w': rng.choice(clients), 'n': n, 'env': env}
   if k == 'GetOperation':
     return {'rpc': k, 's': s, 'w': rng.choice(clients), 'i': rng.randint(1, 3)}
